@@ -168,14 +168,12 @@ def addPrim (sub : Nat → Nat → Bool) (ds : Dicts) (p : Prim) : Dicts :=
 /-! ## Tape -/
 
 /-- One call of the `random` module, carrying its arguments (checked by the model against what
-the code passes) and its result.  `pick` is `random.choice(list(a_set_of_types))`: the iteration
-order of a Python set of type objects is unspecified, so the draw carries the chosen *type*. -/
+the code passes) and its result. -/
 inductive Draw
   | rnd (x : Float)
   | randint (a b x : Int)
   | randrange (a b x : Nat)
   | choice (n i : Nat)
-  | pick (n τ : Nat)
 
 abbrev Tape := List Draw
 
@@ -365,17 +363,14 @@ def idxFrom1 (f : Prim → Bool) (l : List Prim) : List Nat := idxGo f (l.drop 1
 def keysOf (f : Prim → Bool) (l : List Prim) : List Nat :=
   (((l.drop 1).filter f).map (·.ret)).eraseDups
 
-/-- `set(types1.keys()).intersection(set(types2.keys()))` (as a duplicate-free list) -/
+/-- `[type_ for type_ in types1 if type_ in types2]`: keys of `types1` in insertion order that are keys of `types2` -/
 def commonTypes (f1 f2 : Prim → Bool) (l1 l2 : List Prim) : List Nat :=
   (keysOf f1 l1).filter (fun τ => (keysOf f2 l2).contains τ)
 
-/-- `random.choice(list(common_types))` -/
-def popPick (common : List Nat) (tp : Tape) : R (Nat × Tape) :=
-  if common.isEmpty then .error .raised
-  else match tp with
-    | [] => .error .tapeEnd
-    | .pick n τ :: tp => if n = common.length ∧ common.contains τ then .ok (τ, tp) else .error .mismatch
-    | _ :: _ => .error .mismatch
+/-- `random.choice(common_types)` (gp.py:707-710, 762-765): `common_types` is the list of the types of `ind1`
+in order of first occurrence that also occur in `ind2` — exactly `commonTypes` — so the draw is an ordinary
+index into it. -/
+def popPick (common : List Nat) (tp : Tape) : R (Nat × Tape) := popChoice common tp
 
 /-- gp.py:693-698 / 748-753, given the candidate index lists of the chosen type -/
 def swapAt (ind1 ind2 : List Prim) (c1 c2 : List Nat) (tp : Tape) : R (List Prim × List Prim × Tape) :=
